@@ -3,5 +3,7 @@ import CspuzModel.Properties.C17
 #print axioms Cspuz.C17.C17_total_problem
 #print axioms Cspuz.C17.C17_total_url
 #print axioms Cspuz.C17.C17_total_puzzles
+#print axioms Cspuz.C17.C17_reencodable_fails
 #print axioms Cspuz.C17.C17_reencodable_partial
+#print axioms Cspuz.C17.C17_reencodable_nested
 #print axioms Cspuz.C17.C17_reencodable_puzzles
